@@ -8,7 +8,7 @@ import math
 import os
 import statistics
 
-from mc import harness
+from mc import harness, seqdiff
 from mc.common import HarnessError, Stats, pmap, safe, scratch_dir, rm_scratch
 
 PROPERTY = 'C18'
@@ -179,7 +179,33 @@ def _job(job):
     return st
 
 
+SEQ_MENU = [
+    ([('f', 'label', 1), ('label', 'f', 0.25), ('BRAND', 'label', 0)], 'MI-numba-randomized', 2, True),
+    ([('label2', 'label', -1), ('f AND label2', 'label', 1), ('f', 'label2', 1)], 'MI-numba-randomized', 2, False),
+    ([('f', 'label', 0.25)], 'correlation-Pearson', 1, False),
+    ([('label', 'label', 1), ('BRAND', 'label', 0.25), ('label', 'BRAND', 1)], 'AMI', 2, True),
+]
+
+
+def _seqdiff(_):
+    """successive summaries written into the SAME output folder (stale files / state from an earlier run must not leak)"""
+    st = Stats()
+    d = scratch_dir('c18s')
+
+    def call(x):
+        rows, heuristic, order, annotated = x
+        singles, agg = run_summary(rows, heuristic, order, annotated, d)
+        return {'singles': singles.astype(str).values.tolist(), 'agg': None if (agg is None or order <= 1) else agg.astype(str).values.tolist()}
+
+    try:
+        seqdiff.run(call, SEQ_MENU, 2, st, lambda seq, pos: {'kind': 'seqdiff', 'seq': list(seq)}, {'kind': 'history_dependent'})
+    finally:
+        rm_scratch(d)
+    return st
+
+
 def run(ctx):
+    ctx.stats.merge(_seqdiff(None))
     jobs = []
     kmax = 4 if ctx.thorough else 3
     for k in range(1, kmax + 1):
@@ -196,6 +222,9 @@ def run(ctx):
 
 
 def eval_case(case):
+    if case.get('kind') == 'seqdiff':
+        st = _seqdiff(None)
+        return [v['what'] for v in st.violations]
     d = scratch_dir('c18r')
     try:
         rows = [tuple(r) for r in case['rows']]
